@@ -17,7 +17,7 @@ use tonic::{Code, Status};
 
 #[derive(Clone, Debug, Serialize, Deserialize)]
 pub enum Case {
-    RoundTrip { code: i32, message: String, details: Blob, md: Vec<MdEntry>, via_http: bool },
+    RoundTrip { code: i32, message: String, details: Blob, md: Vec<MdEntry>, via_http: bool, #[serde(default)] shadow: bool },
     /// raw (name, value-hex) pairs; invalid names/values are skipped when building the map
     Totality { headers: Vec<(String, String)> },
     HttpStatus { status: u16, trailer_status: Option<i32>, empty_data: bool },
@@ -78,8 +78,9 @@ pub fn strategy() -> BoxedStrategy<Case> {
         prop_oneof![1 => Just(Blob::Hex(String::new())), 10 => small_bytes(40), 2 => (0u32..=200, any::<u32>()).prop_map(|(n, s)| Blob::Rnd(n, s)), 1 => (6_000u32..=20_000, any::<u32>()).prop_map(|(n, s)| Blob::Rnd(n, s))],
         md::entries(6, true, true),
         any::<bool>(),
+        proptest::bool::weighted(0.15),
     )
-        .prop_map(|(code, message, details, md, via_http)| Case::RoundTrip { code, message, details, md, via_http });
+        .prop_map(|(code, message, details, md, via_http, shadow)| Case::RoundTrip { code, message, details, md, via_http, shadow });
     let other = prop_oneof![
         3 => ("x[a-z-]{0,6}(-bin)?", proptest::collection::vec(prop_oneof![0x20u8..=0x7e, 0x80u8..=0xff, Just(b'\t')], 0..10)).prop_map(|(n, v)| (n, hex(&v))),
         1 => (Just("content-type".to_string()), Just(hex(b"application/grpc"))),
@@ -154,7 +155,7 @@ fn classify_b64(v: &[u8]) -> B64Class {
     }
 }
 
-fn run_roundtrip(code: i32, message: &str, details: &[u8], mdv: &[MdEntry], via_http: bool, o: &mut Outcome) -> Result<(), Failure> {
+fn run_roundtrip(code: i32, message: &str, details: &[u8], mdv: &[MdEntry], via_http: bool, shadow: bool, o: &mut Outcome) -> Result<(), Failure> {
     let needs_escape = message.bytes().any(|b| !(0x20..=0x7e).contains(&b) || b == b'%');
     let (bin3, rep, res) = md::label_md(mdv);
     o.label_if(needs_escape, "message_needs_escaping");
@@ -168,7 +169,15 @@ fn run_roundtrip(code: i32, message: &str, details: &[u8], mdv: &[MdEntry], via_
     o.label_if(via_http, "via_into_http");
     o.nontrivial = needs_escape || details.len() % 3 != 0 || !mdv.is_empty();
 
-    let status = Status::with_details_and_metadata(code_of(code), message.to_string(), Bytes::copy_from_slice(details), md::build_map(mdv));
+    let mut meta = md::build_map(mdv);
+    // the metadata may itself carry an entry named like the details header (e.g. trailers of an upstream call
+    // forwarded as metadata): the status' own details must win
+    let shadow = shadow && !details.is_empty();
+    if shadow {
+        meta.insert_bin("grpc-status-details-bin", tonic::metadata::MetadataValue::from_bytes(b"forged details from metadata"));
+        o.label("metadata_named_like_details_header");
+    }
+    let status = Status::with_details_and_metadata(code_of(code), message.to_string(), Bytes::copy_from_slice(details), meta);
     let headers: HeaderMap = if via_http {
         let resp = status.clone().into_http::<String>();
         ensure!(resp.status() == http::StatusCode::OK, "C04/into-http-status", "into_http status {}", resp.status());
@@ -470,9 +479,9 @@ fn run_h2(reason: u32, how: u8, o: &mut Outcome) -> Result<(), Failure> {
 
 pub fn run(c: &Case, o: &mut Outcome) -> Result<(), Failure> {
     match c {
-        Case::RoundTrip { code, message, details, md, via_http } => {
+        Case::RoundTrip { code, message, details, md, via_http, shadow } => {
             o.label("roundtrip");
-            run_roundtrip(*code, message, &details.bytes(), md, *via_http, o)
+            run_roundtrip(*code, message, &details.bytes(), md, *via_http, *shadow, o)
         }
         Case::Totality { headers } => {
             o.label("totality");
@@ -496,7 +505,7 @@ impl Prop for C04 {
         run(c, o)
     }
     fn rule() -> &'static str {
-        "proptest over six families (incl. statuses recovered from error source chains and the HTTP table through a generated client). (a) round trip: 17 codes x Unicode messages (controls, %, %41, non-ASCII incl. 4-byte, <=300 chars) x details 0-200 bytes x metadata (ASCII/opaque/-bin, repeated, reserved names) through Status::add_header / into_http and back through from_header_map; produced values judged by independent percent/base64 decoders. (b) totality: arbitrary header maps (malformed grpc-status, broken escapes, invalid UTF-8, bad base64). (c) every HTTP status 100..=599 (enumerated exhaustively) through Streaming::new_response, with and without a grpc-status trailer, against the transcribed table. (d) h2 reasons 0..=13 (exhaustive) and unknown ones through From<h2::Error> / from_error against the transcribed table. Non-trivial: (a) message needs escaping or details length mod 3 != 0 or metadata non-empty; (b) >=1 malformed field; (c) status != 200; (d) all. Distinct = distinct serialised case."
+        "proptest over six families (incl. statuses recovered from error source chains and the HTTP table through a generated client). (a) round trip: 17 codes x Unicode messages (controls, %, %41, non-ASCII incl. 4-byte, <=300 chars) x details 0-200 bytes x metadata (ASCII/opaque/-bin, repeated, reserved names) through Status::add_header / into_http and back through from_header_map; produced values judged by independent percent/base64 decoders. (b) totality: arbitrary header maps (malformed grpc-status, broken escapes, invalid UTF-8, bad base64). (c) every HTTP status 100..=599 (enumerated exhaustively) through Streaming::new_response, with and without a grpc-status trailer, against the transcribed table. (d) h2 reasons 0..=13 (exhaustive) and unknown ones through From<h2::Error> / from_error against the transcribed table. Non-trivial: (a) message needs escaping or details length mod 3 != 0 or metadata non-empty; (b) >=1 malformed field; (c) status != 200; (d) all. Distinct = distinct serialised case. Also: status metadata holding an entry named grpc-status-details-bin next to non-empty details (the details win)."
     }
     fn assumptions() -> Vec<String> {
         vec![
